@@ -1,0 +1,238 @@
+//go:build verif
+
+package linkedlist
+
+// Contracts for linked_list_buffer.go, read by the rcvc verifier in /verif (comment-only; adds no code).
+// Abstract view of a Buffer l: the sequence of chunks ln(l, 0), ..., ln(l, l.size-1) obtained by following `next`
+// from the head; chunk k holds the bytes of ln(l, k).buf. l.bytes is the total length of the chunks (lsum in
+// spec/smt/queue.smt2). The byte-level FIFO law over this view is explored by a bounded stand-in only
+// (TestVerifSearch_List); what is proved here is the chunk sequence, its order and the accounting.
+
+//@ use queue
+
+//@ define ln(l, k) = qnth(heap(node.next), l.head, k)
+//@ define lnn(l, k) = ref(node, ln(l, k))
+//@ define lsm(l, j) = lsum(heap(node.next), heap(node.buf), l.head, j)
+//@ define lwf(l) = l.size >= 0 && qnth_unfold(heap(node.next), l.head, 1) && (l.size == 0 ==> l.head == nil && l.tail == nil)
+//@     && (l.size > 0 ==> l.head != nil && l.tail == ln(l, l.size - 1) && l.tail.next == nil)
+//@     && (forall i int :: 0 <= i && i < l.size ==> ln(l, i) != nil && allocated(ln(l, i)))
+//@     && (forall i int, j int :: 0 <= i && i < j && j < l.size ==> ln(l, i) != ln(l, j))
+//@     && l.bytes == lsm(l, l.size)
+//@     && (forall i int :: 0 <= i && i < l.size ==> len(lnn(l, i).buf) > 0) && lnonneg(heap(node.next), heap(node.buf), l.head, l.size)
+//@ define lwfl(l) = l.size >= 0 && qnth_unfold(heap(node.next), l.head, 1) && (l.size == 0 ==> l.head == nil && l.tail == nil)
+//@     && (l.size > 0 ==> l.head != nil && l.tail == ln(l, l.size - 1) && l.tail.next == nil)
+//@     && (forall i int :: 0 <= i && i < l.size ==> ln(l, i) != nil && allocated(ln(l, i)))
+//@     && (forall i int, j int :: 0 <= i && i < j && j < l.size ==> ln(l, i) != ln(l, j))
+//@ define popshift(l) = forall i int :: 0 <= i && i < l.size ==> ln(l, i) == old(ln(l, i + 1))
+//@ define pushshift(l) = (forall j int :: 1 <= j && j <= old(l.size) ==> ln(l, j) == old(ln(l, j - 1)))
+//@     && (forall i int :: 0 <= i && i < old(l.size) ==> qnth(heap(node.next), old(l.head), i) == old(ln(l, i)))
+// the list as it was at entry is still there after unrelated allocation (same nodes, same slices)
+//@ define lframe(l) = (forall k int :: 0 <= k && k <= l.size ==> qnth_local(old(heap(node.next)), heap(node.next), l.head, k) && ln(l, k) == old(ln(l, k)))
+//@     && lagree(old(heap(node.next)), old(heap(node.buf)), heap(node.next), heap(node.buf), l.head, l.size)
+//@ define lnotin(l, b) = forall i int :: 0 <= i && i < l.size ==> ln(l, i) != b
+
+//@ func node.len
+//@   props C19
+//@   flags pure
+//@   requires b != nil
+//@   ensures result == len(b.buf)
+
+//@ func Buffer.pop
+//@   props C19
+//@   modifies llb.head, llb.tail, llb.size, llb.bytes, old(llb.head).next
+//@   requires lwf(llb)
+//@   ensures[empty] old(llb.size) == 0 ==> result == nil && llb.size == 0 && llb.bytes == old(llb.bytes)
+//@   ensures[head] old(llb.size) > 0 ==> result == old(llb.head) && result != nil && result.next == nil && llb.size == old(llb.size) - 1 && llb.bytes == old(llb.bytes) - len(result.buf)
+//@   ensures[shift] forall i int :: 0 <= i && i < llb.size ==> qnth_local(old(heap(node.next)), heap(node.next), llb.head, i)
+//@       && qnth_shift(old(heap(node.next)), old(llb.head), i) && ln(llb, i) == old(ln(llb, i + 1))
+//@   ensures[agree] lagree(old(heap(node.next)), heap(node.buf), heap(node.next), heap(node.buf), llb.head, llb.size)
+//@   ensures[wf.a] lwfl(llb)
+//@   ensures[wf.b] lsum_shift(old(heap(node.next)), heap(node.buf), old(llb.head), llb.size) && llb.bytes == lsm(llb, llb.size)
+//@   ensures[wf.c] (forall i int :: 0 <= i && i < llb.size ==> len(lnn(llb, i).buf) > 0) && lnonneg(heap(node.next), heap(node.buf), llb.head, llb.size)
+//@   ensures[wf] lwf(llb)
+//@   ensures[out] old(llb.size) > 0 ==> lnotin(llb, result)
+
+//@ func Buffer.pushBack
+//@   props C19
+//@   modifies llb.head, llb.tail, llb.size, llb.bytes, b.next, old(llb.tail).next
+//@   requires lwf(llb) && (b != nil ==> lnotin(llb, b) && len(b.buf) > 0 && allocated(b))
+//@   ensures[nil] b == nil ==> llb.size == old(llb.size) && llb.bytes == old(llb.bytes) && llb.head == old(llb.head) && llb.tail == old(llb.tail)
+//@   ensures[count] b != nil ==> llb.size == old(llb.size) + 1 && llb.bytes == old(llb.bytes) + len(b.buf)
+//@   ensures[keep] forall i int :: 0 <= i && i < old(llb.size) ==> ln(llb, i) == old(ln(llb, i))
+//@   ensures[last] b != nil ==> ln(llb, old(llb.size)) == b
+//@   ensures[agree] lagree(old(heap(node.next)), heap(node.buf), heap(node.next), heap(node.buf), llb.head, old(llb.size))
+//@   ensures[wf.a] lwfl(llb)
+//@   ensures[wf.b] lsum_unfold(heap(node.next), heap(node.buf), llb.head, llb.size) && llb.bytes == lsm(llb, llb.size)
+//@   ensures[wf.c] (forall i int :: 0 <= i && i < llb.size ==> len(lnn(llb, i).buf) > 0) && lnonneg(heap(node.next), heap(node.buf), llb.head, llb.size)
+//@   ensures[wf] lwf(llb)
+
+//@ func Buffer.pushFront
+//@   props C19
+//@   modifies llb.head, llb.tail, llb.size, llb.bytes, b.next
+//@   requires lwf(llb) && (b != nil ==> lnotin(llb, b) && len(b.buf) > 0 && allocated(b))
+//@   ensures[nil] b == nil ==> llb.size == old(llb.size) && llb.bytes == old(llb.bytes) && llb.head == old(llb.head) && llb.tail == old(llb.tail)
+//@   ensures[count] b != nil ==> llb.size == old(llb.size) + 1 && llb.bytes == old(llb.bytes) + len(b.buf)
+//@   ensures[first] b != nil ==> llb.head == b
+//@   ensures[shift] b != nil ==> (forall j int :: 1 <= j && j <= old(llb.size) ==> qnth_shift(heap(node.next), b, j - 1)
+//@       && qnth_local(old(heap(node.next)), heap(node.next), old(llb.head), j - 1) && ln(llb, j) == old(ln(llb, j - 1)))
+//@   ensures[rest] b != nil ==> (forall i int :: 0 <= i && i < old(llb.size) ==> qnth_local(old(heap(node.next)), heap(node.next), old(llb.head), i)
+//@       && qnth(heap(node.next), old(llb.head), i) == old(ln(llb, i)))
+//@   ensures[wf.a] lwfl(llb)
+//@   ensures[agree] lagree(old(heap(node.next)), heap(node.buf), heap(node.next), heap(node.buf), old(llb.head), old(llb.size))
+//@   ensures[wf.b] lsum_shift(heap(node.next), heap(node.buf), llb.head, old(llb.size)) && lsum_unfold(heap(node.next), heap(node.buf), llb.head, 1) && llb.bytes == lsm(llb, llb.size)
+//@   ensures[wf.c] (forall i int :: 0 <= i && i < llb.size ==> len(lnn(llb, i).buf) > 0) && lnonneg(heap(node.next), heap(node.buf), llb.head, llb.size)
+//@   ensures[wf] lwf(llb)
+
+// ---- public operations ----
+//@ define lsame(l) = l.size == old(l.size) && l.bytes == old(l.bytes) && l.head == old(l.head) && l.tail == old(l.tail)
+//@ define lkeep(l) = forall i int :: 0 <= i && i < old(l.size) ==> (ln(l, i) == old(ln(l, i)) && lnn(l, i).buf == old(lnn(l, i).buf))
+
+//@ func Buffer.Len
+//@   props C19
+//@   flags pure
+//@   ensures result == llb.size
+
+//@ func Buffer.Buffered
+//@   props C19
+//@   flags pure
+//@   ensures result == llb.bytes
+
+//@ func Buffer.IsEmpty
+//@   props C19
+//@   flags pure
+//@   ensures result == (llb.head == nil)
+
+//@ func Buffer.PushBack
+//@   props C10 C19
+//@   modifies llb.head, llb.tail, llb.size, llb.bytes, old(llb.tail).next
+//@   requires lwf(llb)
+//@   assert at call Buffer.pushBack#0 :: lframe(llb)
+//@   ensures[nothing] len(p) == 0 ==> lsame(llb)
+//@   ensures[count] len(p) > 0 ==> llb.size == old(llb.size) + 1 && llb.bytes == old(llb.bytes) + len(p)
+//@   ensures[keep] lkeep(llb)
+//@   ensures[last] len(p) > 0 ==> (fresh(ln(llb, old(llb.size))) && fresh(lnn(llb, old(llb.size)).buf) && bytes_eq(lnn(llb, old(llb.size)).buf, p))
+//@   ensures[wf] lwf(llb)
+//@   ensures[nonempty] (len(p) > 0 || old(llb.head) != nil) ==> llb.head != nil
+//@   ensures[empty] (len(p) == 0 && old(llb.head) == nil) ==> llb.head == nil
+
+//@ func Buffer.PushFront
+//@   props C19
+//@   modifies llb.head, llb.tail, llb.size, llb.bytes
+//@   requires lwf(llb)
+//@   assert at call Buffer.pushFront#0 :: lframe(llb)
+//@   ensures[nothing] len(p) == 0 ==> lsame(llb)
+//@   ensures[count] len(p) > 0 ==> llb.size == old(llb.size) + 1 && llb.bytes == old(llb.bytes) + len(p)
+//@   ensures[first] len(p) > 0 ==> (fresh(llb.head) && fresh(llb.head.buf) && bytes_eq(llb.head.buf, p))
+//@   ensures[shift] len(p) > 0 ==> (forall j int :: 1 <= j && j <= old(llb.size) ==> ln(llb, j) == old(ln(llb, j - 1)))
+//@   ensures[wf] lwf(llb)
+
+// Peek hands out the slices of the first m chunks, in list order, where m is the least count whose total length
+// reaches maxBytes (all chunks when the list holds less); nothing is removed.
+//@ define sameback(x) = (x.base == pre(x.base) && x.off == pre(x.off) && cap(x) == pre(cap(x))) || newinloop(x)
+//@ define peekmax(n) = ite(n <= 0, 2147483647, n)
+
+//@ func Buffer.Peek
+//@   props C10 C19
+//@   modifies llb.bs, capmem(llb.bs)
+//@   requires lwf(llb)
+//@   ensures[chunks] len(result) <= llb.size && (forall k int :: 0 <= k && k < len(result) ==> result[k] == lnn(llb, k).buf)
+//@   ensures[enough] len(result) == llb.size || lsm(llb, len(result)) >= peekmax(maxBytes)
+//@   ensures[minimal] len(result) > 0 ==> lsm(llb, len(result) - 1) < peekmax(maxBytes)
+//@   ensures[kept] lsame(llb) && heap(node.next) == old(heap(node.next)) && heap(node.buf) == old(heap(node.buf))
+//@   loop 0
+//@     modifies llb.bs, capmem(llb.bs)
+//@     invariant 0 <= len(llb.bs) && len(llb.bs) <= llb.size && iter == ln(llb, len(llb.bs)) && qnth_unfold(heap(node.next), llb.head, len(llb.bs) + 1)
+//@     invariant lsum_unfold(heap(node.next), heap(node.buf), llb.head, len(llb.bs) + 1) && cum == lsm(llb, len(llb.bs))
+//@     invariant maxBytes == peekmax(old(maxBytes)) && (len(llb.bs) > 0 ==> (lsum_unfold(heap(node.next), heap(node.buf), llb.head, len(llb.bs)) && lsm(llb, len(llb.bs) - 1) < maxBytes && cum < maxBytes))
+//@     invariant forall k int :: 0 <= k && k < len(llb.bs) ==> llb.bs[k] == lnn(llb, k).buf
+//@     invariant sameback(llb.bs)
+
+// PeekWithBytes(maxBytes, a, b) (its only caller passes the two parts of the ring in front of the list): the non-empty
+// ones of a, b in this order, then the slices of the first m chunks as for Peek, the threshold counting a and b too.
+//@ define ne(x) = ite(len(x) > 0, 1, 0)
+//@ define pw0(bs, i) = ite(i >= 0, len(bs[0]), 0) + ite(i >= 1, len(bs[1]), 0)
+//@ define early0(bs, m) = len(bs[0]) > 0 && len(bs[0]) >= peekmax(m)
+//@ define early1(bs, m) = !early0(bs, m) && len(bs[1]) > 0 && len(bs[0]) + len(bs[1]) >= peekmax(m)
+//@ define pwn(bs, i) = ite(i >= 0, ne(bs[0]), 0) + ite(i >= 1, ne(bs[1]), 0)
+
+//@ func Buffer.PeekWithBytes
+//@   props C10 C19
+//@   modifies llb.bs, capmem(llb.bs)
+//@   requires lwf(llb) && len(bs) == 2 && bs.base != llb.bs.base && allocated(bs.base) && len(bs[0]) >= 0 && len(bs[1]) >= 0
+//@   ensures[first] len(bs[0]) > 0 ==> (len(result) >= 1 && result[0] == bs[0])
+//@   ensures[second] len(bs[1]) > 0 && (len(bs[0]) == 0 || len(bs[0]) < peekmax(maxBytes)) ==> (len(result) >= pwn(bs, 1) && result[ne(bs[0])] == bs[1])
+//@   ensures[early] early0(bs, maxBytes) ==> len(result) == 1
+//@   ensures[early2] early1(bs, maxBytes) ==> len(result) == pwn(bs, 1)
+//@   ensures[chunks] !early0(bs, maxBytes) ==> pwn(bs, 1) <= len(result) && len(result) - pwn(bs, 1) <= llb.size && (forall q int :: pwn(bs, 1) <= q && q < len(result) ==> result[q] == lnn(llb, q - pwn(bs, 1)).buf)
+//@   ensures[enough] (!early0(bs, maxBytes) && !early1(bs, maxBytes)) ==> len(result) - pwn(bs, 1) == llb.size || pw0(bs, 1) + lsm(llb, len(result) - pwn(bs, 1)) >= peekmax(maxBytes)
+//@   ensures[minimal] (!early0(bs, maxBytes) && len(result) - pwn(bs, 1) > 0) ==> pw0(bs, 1) + lsm(llb, len(result) - pwn(bs, 1) - 1) < peekmax(maxBytes)
+//@   ensures[kept] lsame(llb) && heap(node.next) == old(heap(node.next)) && heap(node.buf) == old(heap(node.buf))
+//@   loop 0
+//@     modifies llb.bs, capmem(llb.bs)
+//@     invariant -1 <= rangeindex && rangeindex <= 1 && maxBytes == peekmax(old(maxBytes)) && sameback(llb.bs)
+//@     invariant len(llb.bs) == pwn(bs, rangeindex) && cum == pw0(bs, rangeindex) && (rangeindex >= 0 ==> cum < maxBytes)
+//@     invariant (rangeindex >= 0 && len(bs[0]) > 0) ==> llb.bs[0] == bs[0]
+//@     invariant (rangeindex >= 1 && len(bs[1]) > 0) ==> llb.bs[ne(bs[0])] == bs[1]
+//@     invariant allocated(bs.base) && bs.base != llb.bs.base && bs[0] == old(bs[0]) && bs[1] == old(bs[1])
+//@   loop 1
+//@     modifies llb.bs, capmem(llb.bs)
+//@     invariant pwn(bs, 1) <= len(llb.bs) && len(llb.bs) - pwn(bs, 1) <= llb.size && iter == ln(llb, len(llb.bs) - pwn(bs, 1)) && qnth_unfold(heap(node.next), llb.head, len(llb.bs) - pwn(bs, 1) + 1)
+//@     invariant lsum_unfold(heap(node.next), heap(node.buf), llb.head, len(llb.bs) - pwn(bs, 1) + 1) && cum == pw0(bs, 1) + lsm(llb, len(llb.bs) - pwn(bs, 1))
+//@     invariant maxBytes == peekmax(old(maxBytes)) && (len(llb.bs) - pwn(bs, 1) > 0 ==> (lsum_unfold(heap(node.next), heap(node.buf), llb.head, len(llb.bs) - pwn(bs, 1)) && pw0(bs, 1) + lsm(llb, len(llb.bs) - pwn(bs, 1) - 1) < maxBytes && cum < maxBytes))
+//@     invariant forall q int :: pwn(bs, 1) <= q && q < len(llb.bs) ==> llb.bs[q] == lnn(llb, q - pwn(bs, 1)).buf
+//@     invariant (len(bs[0]) > 0) ==> llb.bs[0] == bs[0]
+//@     invariant (len(bs[1]) > 0) ==> llb.bs[ne(bs[0])] == bs[1]
+//@     invariant sameback(llb.bs) && allocated(bs.base) && bs.base != llb.bs.base && pw0(bs, 1) < maxBytes && bs[0] == old(bs[0]) && bs[1] == old(bs[1])
+//@     invariant len(bs[0]) < maxBytes && len(bs[0]) + len(bs[1]) < maxBytes
+
+//@ func Buffer.Reset
+//@   props C19
+//@   modifies llb.head, llb.tail, llb.size, llb.bytes, llb.bs, node.next
+//@   requires lwf(llb)
+//@   ensures[empty] lwf(llb) && llb.size == 0 && llb.bytes == 0 && llb.head == nil && len(llb.bs) == 0
+//@   loop 0
+//@     modifies llb.head, llb.tail, llb.size, llb.bytes, node.next
+//@     invariant lwf(llb) && (b == nil ==> llb.size == 0)
+
+// Discard drops min(n, Buffered()) bytes from the front: j whole chunks and the first r bytes of the next one; what
+// stays is the old chunk sequence from j on, in order, the first of them cut by r.
+//@ define dj(l) = old(l.size) - l.size
+//@ define olsm(l, j) = lsum(old(heap(node.next)), old(heap(node.buf)), old(l.head), j)
+//@ define oln(l, k) = qnth(old(heap(node.next)), old(l.head), k)
+
+//@ func Buffer.Discard
+//@   props C10 C19
+//@   modifies llb.head, llb.tail, llb.size, llb.bytes, node.next, node.buf
+//@   requires lwf(llb)
+//@   assert[trim.node] at call Buffer.pushFront#0 :: b == oln(llb, dj(llb) - 1) && dj(llb) >= 1 && discarded == olsm(llb, dj(llb) - 1) + n
+//@   assert[trim.cut] at call Buffer.pushFront#0 :: forall x *node :: x == b ==> (n < len(old(x.buf)) && b.buf == old(x.buf)[n:])
+//@   assert[trim.others] at call Buffer.pushFront#0 :: forall x *node :: x != b ==> x.buf == old(x.buf)
+//@   assert[trim.list] at call Buffer.pushFront#0 :: forall k int :: 0 <= k && k < llb.size ==> ln(llb, k) == oln(llb, dj(llb) + k)
+//@   ensures[none] n <= 0 ==> (discarded == 0 && lsame(llb) && heap(node.next) == old(heap(node.next)) && heap(node.buf) == old(heap(node.buf)))
+//@   ensures[count] n > 0 ==> discarded == imin(n, old(llb.bytes))
+//@   ensures[bytes] llb.bytes == old(llb.bytes) - discarded
+//@   ensures[wf] lwf(llb)
+//@   ensures[dropped] 0 <= dj(llb) && dj(llb) <= old(llb.size) && olsm(llb, dj(llb)) <= discarded
+//@   ensures[suffix] forall k int :: 0 <= k && k < llb.size ==> ln(llb, k) == oln(llb, dj(llb) + k)
+//@   ensures[rest] forall k int, x *node :: (1 <= k && k < llb.size && x == lnn(llb, k)) ==> x.buf == old(x.buf)
+//@   ensures[cut] forall x *node :: (llb.size > 0 && x == llb.head) ==> (0 <= discarded - olsm(llb, dj(llb)) && discarded - olsm(llb, dj(llb)) < len(old(x.buf))
+//@       && x.buf == old(x.buf)[discarded - olsm(llb, dj(llb)):])
+//@   ensures[whole] llb.size == 0 ==> discarded == olsm(llb, dj(llb))
+//@   loop 0
+//@     modifies llb.head, llb.tail, llb.size, llb.bytes, node.next
+//@     invariant lwf(llb) && n >= 0 && n + discarded == old(n) && 0 <= dj(llb) && dj(llb) <= old(llb.size) && heap(node.buf) == old(heap(node.buf))
+//@     invariant lsum_unfold(old(heap(node.next)), old(heap(node.buf)), old(llb.head), dj(llb) + 1) && discarded == olsm(llb, dj(llb)) && llb.bytes == old(llb.bytes) - discarded
+//@     invariant forall k int :: 0 <= k && k < llb.size ==> ln(llb, k) == oln(llb, dj(llb) + k)
+
+// Read: count and accounting only (the bytes copied are compared with an ideal queue by the bounded stand-in)
+//@ func Buffer.Read
+//@   props C19
+//@   modifies llb.head, llb.tail, llb.size, llb.bytes, node.next, node.buf, capmem(p)
+//@   requires lwf(llb)
+//@   ensures[count] n == imin(len(p), old(llb.bytes))
+//@   ensures[bytes] llb.bytes == old(llb.bytes) - n
+//@   ensures[wf] lwf(llb)
+//@   loop 0
+//@     modifies llb.head, llb.tail, llb.size, llb.bytes, node.next, node.buf, capmem(p)
+//@     invariant lwf(llb) && 0 <= n && n < len(p) && (b == nil ==> llb.size == 0 && n + llb.bytes == old(llb.bytes))
+//@     invariant b != nil ==> (lnotin(llb, b) && allocated(b) && b.next == nil && len(b.buf) > 0 && n + len(b.buf) + llb.bytes == old(llb.bytes))
